@@ -58,6 +58,11 @@ let () =
              pr (state_line s')
            end in
        (match toks with
+        | ["open"; t; mx; enf] ->
+          let neg = negotiate_enforced (num mx) (num enf) in
+          state := Some (init (if t = "shm" then SHM else SOCK) neg);
+          pr (Printf.sprintf "r 0 %s" (zs neg));
+          (match !state with Some s -> pr (state_line s) | None -> ())
         | ["open"; t; mx] ->
           let neg = negotiate (num mx) in
           state := Some (init (if t = "shm" then SHM else SOCK) neg);
